@@ -273,6 +273,10 @@ def run_one(job):
     # (a reference to the finished PrintVars result B is judged by its value - None - instead of its declared kind: another, equally specific error;
     #  such programs are not run in the add-after-run mode)
     refs_b = '"B"' in json.dumps(prog[-1][2])
+    if len(prog) >= 3:
+        # (the first part must be a complete model of its own: nothing in it may refer to the two commands added later)
+        head_args = json.dumps([c[2] for c in prog[:-2]])
+        refs_b = refs_b or any('["ref", "%s"]' % c[0] in head_args for c in prog[-2:])
     mode = "cwd" if jid % 5 == 2 else "api" if jid % 7 == 5 else \
         "late" if (jid % 7 == 6 and len(prog) >= 4 and prog[-1][0] in ("T", "R") and prog[-2][0] != "T" and not refs_b) else "source"
     nolines = mode in ("api", "late")
